@@ -143,8 +143,9 @@ def _resolve_module_name(ref: str, module: str | None) -> str | None:
         return module
 
     # Easy path, use the qualname if it's provided.
+    #   (The prefix of a nested class, e.g. "Outer.Inner", names a class, not a module.)
     module = ref.split(".", maxsplit=1)[0]
-    if module != ref:
+    if module != ref and module in sys.modules:
         return module
     # Harder path, find the actual object in the stack frame, if possible.
     obj = frames.extract(ref)
